@@ -29,8 +29,18 @@ func VerifC12SortKeyN() {
 	} else {
 		n1, n2 = int64(nd.Int16("n1")), int64(nd.Int16("n2"))
 	}
-	nd.Assume(n1 < n2)
-	t1, t2 := nd.Itoa(n1), nd.Itoa(n2)
+	t1, t2 := "", ""
+	if bits := nd.Param("fracbits", 0); bits > 0 {
+		// sort keys with fraction digits: n1 x 10^-s1 < n2 x 10^-s2, decided exactly on the integers
+		n1, n2 = nd.IntBits("f1", bits), nd.IntBits("f2", bits)
+		sp := [][2]int{{2, 2}, {1, 2}, {2, 0}}[nd.Choice("scales", 3)]
+		p10 := []int64{1, 10, 100}
+		nd.Assume(n1*p10[sp[1]] < n2*p10[sp[0]])
+		t1, t2 = nd.Decimal(n1, sp[0]), nd.Decimal(n2, sp[1])
+	} else {
+		nd.Assume(n1 < n2)
+		t1, t2 = nd.Itoa(n1), nd.Itoa(n2)
+	}
 	nd.Assert(vPut(c, vItem{"p": vS("a"), "s": vN(t2)}) == nil && vPut(c, vItem{"p": vS("a"), "s": vN(t1)}) == nil, "setup-put")
 	fwd := nd.Choice("forward", 2) == 1
 	q, err := c.Query(vCtx, &dynamodb.QueryInput{TableName: aws.String(vTbl), KeyConditionExpression: aws.String("p = :p"),
